@@ -9,32 +9,33 @@
 (* length order is allowed, which yields a set of possible outcomes.          *)
 (* Requirement: every outcome is a basis of the same lattice (|det| = 1) and  *)
 (* the returned cell is the cell of the metric V'GV of one of them.           *)
-(* ReduceCases (generated): Metrics = set of 6-tuples.                        *)
+(* ReduceCases (generated): Metrics = set of <<6-tuple, uvw>> (uvw = 3 is the  *)
+(* default search range of the code; 2 and 4 exercise the optional argument). *)
 EXTENDS IntAlg, TLC, Json, ReduceCases
 
-Range == -3..2                          \* n.arange(-uvw, uvw), uvw = 3
+VARIABLES G, uvw, pc, v0, v1, v2, afterTie
+vars == <<G, uvw, pc, v0, v1, v2, afterTie>>
+Range == (-uvw)..(uvw - 1)                \* n.arange(-uvw, uvw)
 Cands == {<<i, j, k>> : i \in Range, j \in Range, k \in Range}
-VARIABLES G, pc, v0, v1, v2, afterTie
-vars == <<G, pc, v0, v1, v2, afterTie>>
 GM == Sym(G)
 Len2(v) == QuadForm(GM, v)
 NonZero == Cands \ {<<0,0,0>>}
 Collinear(a, b) == Cross(a, b) = <<0,0,0>>
 Triple(a, b, w) == Dot(Cross(a, b), w)          \* kryds . tmp with kryds = cross(v1, v0)
 
-Init == G \in Metrics /\ pc = "sorted" /\ v0 = <<0,0,0>> /\ v1 = <<0,0,0>> /\ v2 = <<0,0,0>> /\ afterTie = FALSE
+Init == (\E c \in Metrics : G = c[1] /\ uvw = c[2]) /\ pc = "sorted" /\ v0 = <<0,0,0>> /\ v1 = <<0,0,0>> /\ v2 = <<0,0,0>> /\ afterTie = FALSE
 
 MinOf(S) == CHOOSE m \in S : \A x \in S : m <= x
 Shortest(S) == LET m == MinOf({Len2(w) : w \in S}) IN {w \in S : Len2(w) = m}
 (* res[1]: any vector of minimal non-zero length (res[0] is the zero vector) *)
 PickFirst == /\ pc = "sorted"
              /\ \E w \in Shortest(NonZero) : v0' = w
-             /\ pc' = "first" /\ UNCHANGED <<G, v1, v2, afterTie>>
+             /\ pc' = "first" /\ UNCHANGED <<G, uvw, v1, v2, afterTie>>
 (* first vector in sorted order that is not collinear with v0 *)
 PickNonCollinear ==
    /\ pc = "first"
    /\ \E w \in Shortest({x \in NonZero : ~Collinear(x, v0)}) : v1' = w
-   /\ pc' = "second" /\ UNCHANGED <<G, v0, v2, afterTie>>
+   /\ pc' = "second" /\ UNCHANGED <<G, uvw, v0, v2, afterTie>>
 (* continuing from the position of v1: the first vector with positive triple product.  Vectors exactly as long
    as v1 may sit before or after it in the sorted array - both are explored. *)
 Valid(w) == Triple(v1, v0, w) > 0 /\ Len2(w) >= Len2(v1)
@@ -45,10 +46,10 @@ PickNonCoplanar ==
           /\ S # {}
           /\ \E w \in Shortest(S) : v2' = w
           /\ afterTie' = skipTies
-   /\ pc' = "done" /\ UNCHANGED <<G, v0, v1>>
+   /\ pc' = "done" /\ UNCHANGED <<G, uvw, v0, v1>>
 (* no third vector in range: the code would return a cell with a zero edge *)
 NoThird == /\ pc = "second" /\ {w \in NonZero : Valid(w)} = {}
-           /\ pc' = "failed" /\ UNCHANGED <<G, v0, v1, v2, afterTie>>
+           /\ pc' = "failed" /\ UNCHANGED <<G, uvw, v0, v1, v2, afterTie>>
 Next == PickFirst \/ PickNonCollinear \/ PickNonCoplanar \/ NoThird
 Spec == Init /\ [][Next]_vars /\ WF_vars(Next)
 
@@ -59,5 +60,5 @@ MetricValid == IsPosDef(GM)
 Primitive == pc = "done" => (Abs(Det(V)) = 1 /\ Det(NewMetric) = Det(GM))
 Terminates == <>(pc \in {"done", "failed"})
 Emit == pc \in {"done", "failed"} =>
-   PrintT("@@" \o ToJson([G |-> G, pc |-> pc, V |-> <<v0, v1, v2>>, detV |-> Det(V), M |-> Sym6(NewMetric), detG |-> Det(GM)]))
+   PrintT("@@" \o ToJson([G |-> G, uvw |-> uvw, pc |-> pc, V |-> <<v0, v1, v2>>, detV |-> Det(V), M |-> Sym6(NewMetric), detG |-> Det(GM)]))
 =============================================================================
